@@ -15,8 +15,21 @@ CHECK = Check(
         "oracle: reference semantics written from the property (row-major visit; contiguous = adjacent in storage; alias iff contiguous Go-backed)",
         "C09 for the 8 element-type instantiations",
     ],
-    assumptions=["views reachable by in-bounds slicing/reshaping of roots with extents >= 1; two-array operations between different storages "
-                 "for the paths-agree theorems (overlap excluded there, see known finding)"],
+    assumptions=["views reachable by in-bounds slicing/reshaping of roots with extents >= 1 (Reach; SliceOK hides: steps >= 1, and for Apply a NON-EMPTY value "
+                 "list `vals != []` with the last written index in bounds); window conditions ArrOK (the Impl window lies inside its storage)",
+                 "zipWithInto_spec (arrayops Scale / AddTo / ApplyFunc1): source and destination of IDENTICAL shapes (hdims). Off it the contiguous fast path pairs "
+                 "flat positions and the general path pairs multi-indices: zipWithInto_shape_mismatch_paths_differ (2x3 source into a contiguous 2x2 destination "
+                 "gives [0,1,2,3], into the same destination as a gapped view [0,1,3,4]); every caller in the repository passes equal shapes",
+                 "reshape_spec, success clause: new shape non-empty with extents >= 1 (`s != [] -> Pos s`); Reshape([]) of a one-element view PANICS in Offsets "
+                 "(reshape_nil), non-positive extents are outside the theorem",
+                 "integer helpers are specified on their in-range arguments only: idivmod_rowmajor for 0 <= k < prod dims, idivmod_wraps for k >= 0, "
+                 "increment_rowmajor for in-bounds indices, dims with extents >= 1; for negative k Go's truncated / and % give mixed-sign digits (example in "
+                 "OW.Props.C02.Ex), not specified further",
+                 "two-array operations (applySlice_paths_agree, copyFrom_spec, zipWithInto_spec) are stated for source and destination in DIFFERENT STORAGES "
+                 "(`dest.sid != source.sid`). This also excludes DISJOINT views of ONE storage (e.g. two rows of one array), for which the statements are true "
+                 "of the code but not proved here (a restatement with disjoint address sets is not done); overlapping views are the known finding KF-C02-overlap",
+                 "C-backed int / uint arrays: values within 32 bits (otherwise KF-C02-c-int-width, scope ND:c-int-width: every write narrows; OW/Nd/CInt.lean)"],
+    partial=["two-array theorems for disjoint views of one storage: not proved (see assumptions); covered by the ND correspondence and the reference-semantics oracle"],
 )
 
 META = dict(
@@ -28,7 +41,8 @@ META = dict(
          "by exact correspondence on op programs and exhaustive helper inputs.",
     design_ref="DESIGN.md §6 C02",
     note="Trusted: Lean kernel + 3 standard axioms; correspondence generators; Int for Go int. Known finding: bulk copies whose source and "
-         "destination overlap in one storage (memmove fast path vs element-wise path) — scope ND:overlap.",
-    technique="Lean 4 proof (mixed radix, contiguity invariant, list folds) + differential correspondence model vs real code + model regenerated from the Go source on every run by a translator (gen_eq_* theorems tie it to the hand-written model)",
+         "destination overlap in one storage (memmove fast path vs element-wise path) — scope ND:overlap; C-backed int / uint arrays hold 32-bit "
+         "elements — scope ND:c-int-width.",
+    technique="Lean 4 proof (mixed radix, contiguity invariant, list folds) + differential correspondence model vs real code + index algebra (Index, SliceInto, Contiguous, integer helpers) regenerated from the Go source on every run by a translator (gen_eq_* theorems tie it to the hand-written model); heap-level operations and the C-specific code hand-written, tied by correspondence",
 )
 READY = True
